@@ -126,6 +126,15 @@ Theorem C20_full_dedup_ops_prefix : forall ids,
 Proof. exact dedup_ops_prefix. Qed.
 Print Assumptions C20_full_dedup_ops_prefix.
 
+Theorem C20_partial_dedup_ops_nodup : forall ids, guard_F07a ids = true ->
+  NoDup (map method_name (dedup_ops ids)) /\ dedup_ops (dedup_ops ids) = dedup_ops ids.
+Proof. exact dedup_ops_nodup_partial. Qed.
+Print Assumptions C20_partial_dedup_ops_nodup.
+
+Theorem C20_guard_F07a_nonvacuous : guard_F07a w_ops_ok = true /\ dedup_ops w_ops_ok <> w_ops_ok.
+Proof. exact guard_F07a_nonvacuous. Qed.
+Print Assumptions C20_guard_F07a_nonvacuous.
+
 Theorem C20_partial_dedup_ops_idempotent : forall ids,
   NoDup (map method_name (dedup_ops ids)) -> dedup_ops (dedup_ops ids) = dedup_ops ids.
 Proof. exact dedup_ops_idempotent_partial. Qed.
